@@ -346,7 +346,9 @@ func fileCut(dec typedDecoder, d *refmodel.Datum, k, off int, dl delivery) {
 	cut := moff + mk
 	out, det := outcome(mf, dl.reader(menc[:cut]))
 	if out == "" {
-		run.EngineError("reduction of %s %s cut at %d lost the failure", d.T, d, k)
+		// the prefix WAS accepted a moment ago: the decoder's answer depends
+		// on what it was given before (a detection, not a tool failure)
+		run.Unstable(fmt.Sprintf("cut/%s/accepted", dec.name), fmt.Sprintf("%s: a strict prefix (cut at %d) of the encoding of %s %s was accepted during the enumeration but refused when the reduced case was re-run", dec.name, k, d.T, d), map[string]interface{}{"type": fmt.Sprint(d.T), "datum": fmt.Sprint(d), "cut": k})
 		return
 	}
 	// does the way the prefix is delivered matter? A *bytes.Buffer: is the
